@@ -39,6 +39,34 @@ ASSUMPTIONS = [
 PROPOSALS = ("semi-adapted", "fully-adapted", "bootstrap")
 
 
+class RareDrawGenerator(np.random.Generator):
+    """default_rng(seed) stream, except that the `at`-th gamma draw with shape < 1 returns exactly 0.0.  That is a real
+    outcome of numpy's generator: for shape 0.01 (the concentration update while the tree has one clone) the variate
+    underflows to 0.0 about once per 1000 draws.  Injecting it makes the rare path reachable in a short run."""
+
+    def __init__(self, seed, at):
+        super().__init__(np.random.PCG64(seed))
+        self._at = at
+        self._seen = 0
+        self.injected = 0
+
+    def standard_gamma(self, shape, size=None, dtype=np.float64, out=None):
+        if np.all(np.asarray(shape) < 1):
+            self._seen += 1
+            if self._seen - 1 == self._at:
+                self.injected += 1
+                return 0.0 if size is None else np.zeros(size)
+        return super().standard_gamma(shape, size=size, dtype=dtype, out=out)
+
+    def gamma(self, shape, scale=1.0, size=None):
+        if np.all(np.asarray(shape) < 1):
+            self._seen += 1
+            if self._seen - 1 == self._at:
+                self.injected += 1
+                return 0.0 if size is None else np.zeros(size)
+        return super().gamma(shape, scale, size)
+
+
 @st.composite
 def _case(draw, shard):
     via_run = shard % 4 == 3
@@ -61,6 +89,7 @@ def _case(draw, shard):
         conc_update=draw(st.booleans()),
         alpha=draw(st.sampled_from([1.0, 0.01, 50.0])),
         seed=draw(st.integers(0, 2 ** 31 - 1)),
+        rare_gamma_zero_at=draw(st.sampled_from([None, 0, None, 1, 3])) if not via_run else None,
     )
     if via_run:
         from vp.checks.c05 import _counts, _row_params
@@ -109,7 +138,8 @@ def evaluate(case):
                 values = gen.make_values(case["n"], case["dims"], 11, vs["seed"], vs["regime"], vs["scale"])
                 dd = gen.make_datapoints(values, outlier_prior=case["outlier_prob"])
                 data = [dd[i] for i in range(case["n"])]
-                res = run_phyclone_chain(case["burnin"], case["conc_update"], case["alpha"], data, max_time, case["iters"], case["N"], 1, 1, case["outlier_prob"], 100, case["proposal"], case["thr"], np.random.default_rng(case["seed"]), ["s%d" % i for i in range(case["dims"])], case["thin"], 0, case["subtree_prob"])
+                rng = np.random.default_rng(case["seed"]) if case.get("rare_gamma_zero_at") is None else RareDrawGenerator(case["seed"], case["rare_gamma_zero_at"])
+                res = run_phyclone_chain(case["burnin"], case["conc_update"], case["alpha"], data, max_time, case["iters"], case["N"], 1, 1, case["outlier_prob"], 100, case["proposal"], case["thr"], rng, ["s%d" % i for i in range(case["dims"])], case["thin"], 0, case["subtree_prob"])
                 trace = res["trace"]
                 n_expected = case["n"]
             else:
@@ -183,4 +213,6 @@ def evaluate(case):
     if case["n"] == 1:
         bounds.append("n=1")
     classes = ["kind:" + case["kind"], "prop:" + case["proposal"]] + bounds
+    if case["kind"] == "chain" and case.get("rare_gamma_zero_at") is not None and getattr(rng, "injected", 0):
+        classes.append("rare-draw-injected:gamma=0")
     return Outcome(nontrivial=case["n"] >= 2 and len(bounds) > 0, classes=tuple(classes), info={k: v for k, v in case.items() if k not in ("rows", "values")}, weight=len(trace))
